@@ -17,7 +17,9 @@ EDGE = {
     'list': [bi('ㅁㄹ'), bi('ㅁㄹ', lit(1)), bi('ㅁㄹ', lit(1), lit(2), lit(3)), bi('ㅁㄹ', str_lit("a"), str_lit("b")),
              bi('ㅁㄹ', bytes_lit(b"a")), bi('ㅁㄹ', bi('ㅁㄹ', lit(1))), bi('ㅁㄹ', gen.BOOL_T, gen.BOOL_F), bi('ㅁㄹ', str_lit("a"), lit(1)),
              bi('ㅁㄹ', bi('ㄷㅈ', bi('ㄷㅂ', lit(9))))],
-    'dict': [bi('ㅅㅈ'), bi('ㅅㅈ', lit(1), lit(2)), bi('ㅅㅈ', str_lit("k"), bi('ㅁㄹ', lit(1)))],
+    'dict': [bi('ㅅㅈ'), bi('ㅅㅈ', lit(1), lit(2)), bi('ㅅㅈ', str_lit("k"), bi('ㅁㄹ', lit(1))),
+             bi('ㅅㅈ', lit(1), lit(2), str_lit("k"), lit(3), bi('ㅂㄱ'), lit(4), bi('ㅁㄹ', lit(1)), lit(5)),      # keys of four kinds
+             bi('ㅅㅈ', bi('ㅂㅅ', lit(0), lit(1)), lit(1), bi('ㅂㅅ', lit(1), lit(0)), lit(2), raw("(ㅈㅈㅎㄱ)"), lit(3))],
     'nil': [gen.NIL],
     'fn': [fundef(arg(0)), fundef(lit(3)), fundef(bi('ㄷ', arg(0), arg(1))), raw("(ㅂ ㅂㄷ ㄱ ㅂㅎㄹ)"), bi('ㄴㄱ'), bi('ㄴㄱ', raw('ㄷ')),
            bi('ㅁㅂ', raw('ㄷ')), bi('ㅂㅂ', raw('ㅈㄷ')), raw("(ㄱ ㄴ ㅂ ㅂ ㅂㅎㄷ ㅎㄷ)"), raw("(ㄴ ㄷ ㅈㅈㅎㄱ ㅂ ㅂ ㅂㅎㄷ ㅎㄹ)"),
@@ -117,6 +119,15 @@ def cases(rng, tier):
             yield Case(program=render(bi(name, x, y)), tag='num-pair')
     for x, y, z in [(rng.choice(EDGE['int']), rng.choice(EDGE['int']), rng.choice(EDGE['int'])) for _ in range(40 if tier == 'quick' else 2000)]:
         yield Case(program=render(bi('ㅅ', x, y, z)), tag='powmod')
+    # (3b) equality / keying over every pair of edge values of every kind (ㄴ asks both for their structural key)
+    allv = [v for k in KINDS for v in EDGE[k]]
+    prs = list(itertools.product(allv, allv))
+    rng.shuffle(prs)
+    for x, y in prs[:(300 if tier == 'quick' else 6000)]:
+        yield Case(program=render(bi('ㄴ', x, y)), stdin="in\n", tag='eq-pair')
+        if rng.random() < 0.3:
+            yield Case(program=render(bi('ㅅㅈ', x, lit(1), y, lit(2))), stdin="in\n", tag='key-pair')
+            yield Case(program=render(bi('ㄴ', bi('ㅁㄹ', x), bi('ㅁㄹ', y))), stdin="in\n", tag='eq-pair-nested')
     # (4) numeric strings and bases
     for s in EDGE['str']:
         for b in [None, 0, 1, 2, 8, 10, 16, 36, 37, -1]:
